@@ -73,6 +73,15 @@ def uni(ctx):
     ok, d = cm.effect_only_when_equal(b, c, cm.blocks_of_calls(pushes))
     R.require(ok, "push-iff-equal", pushes[0].where(), "a change is buffered only on the cluster-equal edge %s" % d,
               fail_msg="the uni task buffers a broadcast change although the payload's cluster id differs (reachability by compare outcome: %s)" % d)
+    # per frame: the guard evaluator assumes one outcome of the comparison per run; frames are decoded in a loop, so
+    # additionally every path from the decode of a frame to the push must evaluate the comparison (no flag-guarded skip)
+    decs = [d for d in b.calls if "read_from_buffer" in d.f and "UniPayload" in d.self_ty]
+    if R.anchor(decs, "decode", "UniPayload::read_from_buffer in the frame loop"):
+        d = decs[0]
+        tgt = b.term(d.bb).get("tgt")
+        skip = [p for p in pushes if p.bb in b.reachable(tgt, no_nodes=(c.bb, d.bb))]
+        R.require(not skip, "compare-per-frame", pushes[0].where(), "every path from decoding a frame to buffering its change evaluates the cluster comparison",
+                  fail_msg="a decoded frame can reach changes.push without its cluster id being compared (the comparison is skipped on some path, e.g. checked once per stream): frames of another cluster riding on an accepted stream are applied")
     # operands: handler param (captured upvar) vs decoded payload field
     o0, o1 = cm.operand_origins(b, c, 0), cm.operand_origins(b, c, 1)
     s0, s1 = cm.origin_summary(o0), cm.origin_summary(o1)
